@@ -1,6 +1,7 @@
 package render
 
 import (
+	"path/filepath"
 	"sync"
 
 	"github.com/osteele/liquid/parser"
@@ -43,7 +44,8 @@ func (c *Config) CacheSource(path string, source []byte) {
 		c.cacheMu.Lock()
 		defer c.cacheMu.Unlock()
 	}
-	c.Cache[path] = append([]byte(nil), source...)
+	// {% include %} looks a template up under filepath.Join(dir, name), which is a cleaned path
+	c.Cache[filepath.Clean(path)] = append([]byte(nil), source...)
 }
 
 // cachedSource returns the source registered for path.
@@ -53,5 +55,8 @@ func (c *Config) cachedSource(path string) ([]byte, bool) {
 		defer c.cacheMu.RUnlock()
 	}
 	source, ok := c.Cache[path]
+	if !ok {
+		source, ok = c.Cache[filepath.Clean(path)]
+	}
 	return source, ok
 }
